@@ -71,6 +71,7 @@ def run(chk, replay=None):
                 d = dec(bytearray(b0))
             except Exception:
                 continue
+            orig = copy.deepcopy(d)
             if fmt == "ReadElementStatus":
                 for pg in d.get("element_status_pages", []):
                     for e_ in pg.get("element_descriptors", []):
@@ -78,6 +79,18 @@ def run(chk, replay=None):
                             if k in e_:
                                 e_[k] = bytearray(36)
             ev.case((fmt, bytes(b0)))
+            # read - modify: the caller edits what it parsed; parsing the same response again must not see the edits
+            keepd = copy.deepcopy(d)
+            scramble(d)
+            try:
+                dagain = dec(bytearray(b0))
+                if norm(dagain) != norm(orig):
+                    f1, f2 = flatten(norm_b(orig)), flatten(norm_b(dagain))
+                    diff = sorted(k for k in set(f1) | set(f2) if f1.get(k) != f2.get(k))
+                    viol("ParseIsFresh", fmt, re.sub(r"/\d+", "/*", diff[0]) if diff else "?", {"differs": diff[:8]})
+            except Exception as ex:
+                viol("ParseIsFresh", fmt, "raised " + type(ex).__name__, {})
+            d = keepd
             din = copy.deepcopy(d)
             e = {"ev": "Marshal", "fmt": fmt, "in": flatten(din) or {"#empty": []}, "bytes": [], "exc": ""}
             try:
@@ -207,6 +220,28 @@ def run(chk, replay=None):
                       "(T10Data), parse-of-build equals the values, build-of-parse equals the bytes; read-modify-write of "
                       "every field of the four mode pages through SCSI.modesense6 / modeselect6 with a recording device. "
                       "distinct by (format, response bytes)." % (n, ", ".join(sorted(B))))
+
+
+def scramble(o):
+    """edit a parsed result in place, everywhere"""
+    if isinstance(o, dict):
+        for k in list(o):
+            v = o[k]
+            if isinstance(v, bool) or isinstance(v, int):
+                o[k] = v ^ 1
+            elif isinstance(v, bytearray):
+                for i in range(len(v)):
+                    v[i] ^= 0xFF
+            elif isinstance(v, (dict, list)):
+                scramble(v)
+            elif isinstance(v, str):
+                o[k] = v + "x"
+    elif isinstance(o, list):
+        for i, v in enumerate(o):
+            if isinstance(v, int):
+                o[i] = v ^ 1
+            else:
+                scramble(v)
 
 
 def norm_b(o):
